@@ -7,9 +7,11 @@ package sm
 
 import (
 	"encoding/json"
+	"errors"
 	"fmt"
 
 	"github.com/nyaruka/goflow/flows"
+	"github.com/nyaruka/goflow/flows/engine"
 	"verif/mc"
 	"verif/world"
 )
@@ -27,6 +29,8 @@ type Cfg struct {
 	ExpandFinal bool
 	// Key overrides the canonical state key.
 	Key func(t *Trans) string
+	// OnNewState is called once for every distinct state (after deduplication).
+	OnNewState func(t *Trans)
 }
 
 // Trans is one executed transition: the history, the live execution after its last call, and what
@@ -48,7 +52,7 @@ type Trans struct {
 // Stats are the counts a search reports.
 type Stats struct {
 	States, Transitions, Execs, MaxDepth, Waiting, Completed, Failed, GoErrors int
-	MaxSprintSteps int // largest number of new steps (across runs) in one sprint
+	MaxSprintSteps                                                             int // largest number of new steps (across runs) in one sprint
 }
 
 // NewSteps is the number of steps created by the last call, across all runs.
@@ -93,8 +97,12 @@ func Replay(root *world.Root, hist []world.Step) *Trans {
 		}
 		for i, st := range hist[1:] {
 			if x.Err != nil {
-				t.HarnessErr = fmt.Errorf("history continues after a Go error: %v", x.Err)
-				return
+				// a rejected resume (engine error) leaves the session resumable; anything else ends the history
+				var ee *engine.Error
+				if !errors.As(x.Err, &ee) {
+					t.HarnessErr = fmt.Errorf("history continues after a Go error: %v", x.Err)
+					return
+				}
 			}
 			if i == len(hist)-2 {
 				if st.Restart {
@@ -196,6 +204,9 @@ func Search(root *world.Root, cfg Cfg) Stats {
 					st.Completed++
 				case flows.SessionStatusFailed:
 					st.Failed++
+				}
+				if cfg.OnNewState != nil {
+					cfg.OnNewState(t)
 				}
 				if !cont {
 					return
